@@ -629,6 +629,9 @@ class GenFunctions(object):
         )
 
         fcn = cls.add_function(decl, splicer=splicer)
+        # Honor the wrap options of the variable.
+        fcn.wrap.c = var.wrap.c
+        fcn.wrap.fortran = var.wrap.fortran
         fcn.wrap.lua = False
         fcn.wrap.python = False
 
@@ -662,6 +665,8 @@ class GenFunctions(object):
         fcn = cls.add_function(decl, attrs=attrs, splicer=splicer)
         # XXX - The function is not processed like other, so set intent directly.
         fcn.ast.params[0].metaattrs["intent"] = "in"
+        fcn.wrap.c = var.wrap.c
+        fcn.wrap.fortran = var.wrap.fortran
         fcn.wrap.lua = False
         fcn.wrap.python = False
 
